@@ -341,6 +341,12 @@ class ExprMixin:
                 if both and int(cb) >= 0:
                     return [(st, self.const_val(int(ca) ** int(cb)))]
                 raise Unsupported("symbolic power", node, self.path)
+            if isinstance(op, ast.Mod) and b.choices and all(c > 0 for c in b.choices):
+                # divisor known to be one of a few positive constants (e.g. an alignment): linear case split
+                z = ia % b.choices[-1]
+                for c in reversed(b.choices[:-1]):
+                    z = z3.If(ib == c, ia % c, z)
+                return [(st, Val(INT, z))]
             if isinstance(op, (ast.FloorDiv, ast.Mod)):
                 res = []
                 for s2, zero in self.split(st, ib == 0):
@@ -524,6 +530,8 @@ class ExprMixin:
             return [(st, Val(("boundmethod",), (base, attr)))]
         if k == "cls":
             return self.lib.class_attr(base.conc, attr, st, node)
+        if k in ("symcls", "cls") and attr in ("__name__", "__qualname__"):
+            return [(st, self.fresh(STR, "clsname") if k == "symcls" else self.const_val(base.conc))]
         if k == "symcls" and attr in ("from_buffer", "from_buffer_copy"):
             return [(st, Val(("boundmethod",), (base, attr)))]
         if k in ("ref", "exc"):
